@@ -90,7 +90,7 @@ def _worker(inq, outq):
         outq.put((qid, res))
 
 
-MEM_CAP_MB = int(os.environ.get("VERIF_WORKER_MEM_MB", "2500"))
+MEM_CAP_MB = int(os.environ.get("VERIF_WORKER_MEM_MB", "6000"))
 
 
 def _rss_mb(pid):
